@@ -490,7 +490,8 @@ class ConsumerGroup(Entity):
                 self._committed_offsets[consumer_name] = {}
 
             for pid, offset in offsets.items():
-                self._committed_offsets[consumer_name][pid] = offset
+                committed = self._committed_offsets[consumer_name]
+                committed[pid] = max(committed.get(pid, 0), offset)
 
             self._commits += 1
             return None
